@@ -341,4 +341,413 @@ example : sortBy gLt [{ kind := .group, name := "b", priority := 5, procs := [] 
        { kind := .group, name := "b", priority := 5, procs := [] }] := by decide
 
 
+/-! ### event listener pools -/
+
+theorem mapM_ok_spec {α β : Type} (f : α → Except String β) (l : List α) (out : List β) (h : l.mapM f = .ok out) :
+    out.length = l.length ∧ ∀ i (h1 : i < l.length) (h2 : i < out.length), f l[i] = .ok out[i] := by
+  induction l generalizing out with
+  | nil => simp [List.mapM_nil, pure, Except.pure] at h; subst h; simp
+  | cons x xs ih =>
+    simp only [List.mapM_cons, bind, Except.bind, pure, Except.pure] at h
+    split at h
+    · contradiction
+    · rename_i y hy
+      split at h
+      · contradiction
+      · rename_i ys hys
+        injection h with h; subst h
+        obtain ⟨hl, hall⟩ := ih ys hys
+        refine ⟨by simp [hl], ?_⟩
+        intro i h1 h2
+        cases i with
+        | zero => simpa using hy
+        | succ j => simpa using hall j (by simpa using h1) (by simpa using h2)
+
+theorem mapM_error_of_mem {α β : Type} (f : α → Except String β) (l : List α) (x : α) (hx : x ∈ l) (e : String)
+    (hf : f x = .error e) : ∃ e', l.mapM f = .error e' := by
+  apply isError_of_not_ok
+  intro out hout
+  obtain ⟨hl, hall⟩ := mapM_ok_spec f l out hout
+  obtain ⟨i, hi, rfl⟩ := List.getElem_of_mem hx
+  have := hall i hi (by omega)
+  rw [hf] at this
+  contradiction
+
+/-- **constraint: unknown event type.**  If any listed name (upper-cased) is not an attribute of the generated
+    EventTypes registry, the subscription list is rejected. -/
+theorem constraint_unknown_event_type (names : List String) (n : String) (hn : n ∈ names)
+    (hu : eventNames.lookup (pyUpper n) = none) : ∃ e, poolEvents names = .error e := by
+  unfold poolEvents
+  apply mapM_error_of_mem _ _ (pyUpper n) (List.mem_map.mpr ⟨n, hn, rfl⟩) "events:unknown event type"
+  simp [hu]
+
+theorem mem_dedup (l : List String) (x : String) : x ∈ dedup l ↔ x ∈ l := by
+  induction l with
+  | nil => simp [dedup]
+  | cons y ys ih =>
+    simp only [dedup]
+    split
+    · rename_i hc
+      have hy : y ∈ ys := List.contains_iff_mem.mp hc
+      simp only [ih, List.mem_cons]
+      constructor
+      · exact Or.inr
+      · rintro (rfl | h)
+        · exact hy
+        · exact h
+    · simp [ih]
+
+/-- **listener_subscription.**  A pool subscribes to exactly the listed event types: a class is in `pool_events`
+    iff it is the registry entry of one of the listed names (upper-cased); every listed name has an entry. -/
+theorem listener_subscription (names : List String) (evs : List String) (h : poolEvents names = .ok evs) :
+    (∀ n ∈ names, ∃ c, eventNames.lookup (pyUpper n) = some c) ∧
+    ∀ c, c ∈ sortBy strLt (dedup evs) ↔ ∃ n ∈ names, eventNames.lookup (pyUpper n) = some c := by
+  unfold poolEvents at h
+  obtain ⟨hl, hall⟩ := mapM_ok_spec _ _ evs h
+  simp only [List.length_map] at hl hall
+  have hget : ∀ i (h1 : i < names.length), eventNames.lookup (pyUpper names[i]) = some (evs[i]'(by omega)) := by
+    intro i h1
+    have := hall i h1 (by omega)
+    simp only [List.getElem_map] at this
+    split at this
+    · injection this with this; rename_i c hc; rw [hc, this]
+    · contradiction
+  constructor
+  · intro n hn
+    obtain ⟨i, hi, rfl⟩ := List.getElem_of_mem hn
+    exact ⟨_, hget i hi⟩
+  · intro c
+    rw [(sortBy_perm strLt (dedup evs)).mem_iff, mem_dedup]
+    constructor
+    · intro hc
+      obtain ⟨i, hi, rfl⟩ := List.getElem_of_mem hc
+      exact ⟨names[i]'(by omega), List.getElem_mem _, hget i (by omega)⟩
+    · rintro ⟨n, hn, hc⟩
+      obtain ⟨i, hi, rfl⟩ := List.getElem_of_mem hn
+      have := hget i hi
+      rw [hc] at this
+      injection this with this
+      rw [this]
+      exact List.getElem_mem _
+
+
+/-- an accepted [eventlistener:x] section: its pool is subscribed to the listed events, has a buffer of at least
+    one event, does not redirect stderr, and its processes are those of the section -/
+theorem listenerGroup_ok (cx : Ctx) (sec : Section) (g : GConfig) (h : listenerGroup cx sec = .ok g) :
+    ∃ names evs,
+      (getField cx.penv "eventlistener" sec "events" [] (hereExps cx) >>= asStrs) = .ok names ∧ names ≠ [] ∧
+      poolEvents names = .ok evs ∧ g.pool_events = sortBy strLt (dedup evs) ∧
+      g.kind = .pool ∧ 1 ≤ g.buffer_size ∧
+      (getField cx.penv "eventlistener" sec "redirect_stderr" [] (hereExps cx) >>= asBool) = .ok false ∧
+      processesFromSection cx .listener sec (afterPrefix "eventlistener:" sec.name) (afterPrefix "eventlistener:" sec.name) = .ok g.procs := by
+  unfold listenerGroup at h
+  dsimp only at h
+  cases h1 : (getField cx.penv "eventlistener" sec "priority" [] (hereExps cx) >>= asInt) with
+  | error e => rw [h1] at h; contradiction
+  | ok priority =>
+  rw [h1] at h; dsimp only at h
+  cases h2 : (getField cx.penv "eventlistener" sec "buffer_size" [] (hereExps cx) >>= asInt) with
+  | error e => rw [h2] at h; contradiction
+  | ok bs =>
+  rw [h2] at h; dsimp only at h
+  by_cases hb : pgfp_g5 bs 0 = true
+  · rw [if_pos hb] at h; contradiction
+  rw [if_neg hb] at h
+  cases h3 : (getField cx.penv "eventlistener" sec "result_handler" [] (hereExps cx) >>= asStr) with
+  | error e => rw [h3] at h; contradiction
+  | ok handler =>
+  rw [h3] at h; dsimp only at h
+  by_cases hd : strStartsWith "." handler = true
+  · rw [if_pos hd] at h; contradiction
+  rw [if_neg hd] at h
+  by_cases hr : (!cx.handlers.contains handler) = true
+  · rw [if_pos hr] at h; contradiction
+  rw [if_neg hr] at h
+  cases h4 : (getField cx.penv "eventlistener" sec "events" [] (hereExps cx) >>= asStrs) with
+  | error e => rw [h4] at h; contradiction
+  | ok names =>
+  rw [h4] at h; dsimp only at h
+  by_cases hne : names.isEmpty = true
+  · rw [if_pos hne] at h; contradiction
+  rw [if_neg hne] at h
+  cases h5 : poolEvents names with
+  | error e => rw [h5] at h; contradiction
+  | ok evs =>
+  rw [h5] at h; dsimp only at h
+  cases h6 : (getField cx.penv "eventlistener" sec "redirect_stderr" [] (hereExps cx) >>= asBool) with
+  | error e => rw [h6] at h; contradiction
+  | ok red =>
+  rw [h6] at h; dsimp only at h
+  by_cases hred : red = true
+  · rw [if_pos hred] at h; contradiction
+  rw [if_neg hred] at h
+  cases h7 : processesFromSection cx .listener sec (afterPrefix "eventlistener:" sec.name) (afterPrefix "eventlistener:" sec.name) with
+  | error e => rw [h7] at h; cases h
+  | ok ps =>
+  rw [h7] at h
+  replace h : Except.ok _ = Except.ok g := h
+  injection h with h
+  subst h
+  have hred' : red = false := by cases red <;> simp_all
+  subst hred'
+  refine ⟨names, evs, rfl, ?_, h5, rfl, rfl, ?_, rfl, rfl⟩
+  · intro e; rw [e] at hne; exact hne rfl
+  · simp only [pgfp_g5, ilt_iff, Bool.not_eq_true, ilt_false_iff] at hb; show 1 ≤ bs; omega
+
+
+/-! ### heterogeneous groups -/
+
+/-- element-wise relation between two lists of the same length -/
+inductive Forall2 {α β : Type} (R : α → β → Prop) : List α → List β → Prop
+  | nil : Forall2 R [] []
+  | cons {a b as bs} : R a b → Forall2 R as bs → Forall2 R (a :: as) (b :: bs)
+
+/-- what the `for program in programs` loop of a [group:g] section returns: for every listed program, in the
+    listed order, the processes of its [program:p] (or [fcgi-program:p]) section built with group_name = g;
+    `taken` lists exactly those sections -/
+theorem heteroPrograms_spec (cx : Ctx) (ini : Ini) (g : String) (programs : List String)
+    (procs : List PConfig) (taken : List String) (h : heteroPrograms cx ini g programs = .ok (procs, taken)) :
+    ∃ pss : List (List PConfig), procs = pss.flatten ∧
+      Forall2 (fun p (tp : String × List PConfig) =>
+        (tp.1 = "program:" ++ p ∨ tp.1 = "fcgi-program:" ++ p) ∧ tp.1 ∈ ini.sectionNames ∧
+        ∃ sec, ini.find tp.1 = some sec ∧ processesFromSection cx .process sec p g = .ok tp.2)
+        programs (taken.zip pss) ∧ taken.length = pss.length := by
+  induction programs generalizing procs taken with
+  | nil =>
+    simp only [heteroPrograms] at h
+    injection h with h; injection h with h1 h2; subst h1; subst h2
+    exact ⟨[], rfl, Forall2.nil, rfl⟩
+  | cons p rest ih =>
+    unfold heteroPrograms at h
+    dsimp only at h
+    by_cases c1 : (!ini.sectionNames.contains ("program:" ++ p) && !ini.sectionNames.contains ("fcgi-program:" ++ p)) = true
+    · rw [if_pos c1] at h; cases h
+    rw [if_neg c1] at h
+    by_cases c2 : (ini.sectionNames.contains ("program:" ++ p) && ini.sectionNames.contains ("fcgi-program:" ++ p)) = true
+    · rw [if_pos c2] at h; cases h
+    rw [if_neg c2] at h
+    generalize hs : (if ini.sectionNames.contains ("program:" ++ p) = true then "program:" ++ p else "fcgi-program:" ++ p) = sname at h
+    have hsn : (sname = "program:" ++ p ∨ sname = "fcgi-program:" ++ p) ∧ sname ∈ ini.sectionNames := by
+      by_cases c3 : ini.sectionNames.contains ("program:" ++ p) = true
+      · rw [if_pos c3] at hs; subst hs; exact ⟨Or.inl rfl, List.contains_iff_mem.mp c3⟩
+      · rw [if_neg c3] at hs; subst hs
+        refine ⟨Or.inr rfl, ?_⟩
+        have : ini.sectionNames.contains ("fcgi-program:" ++ p) = true := by
+          simp only [Bool.and_eq_true, Bool.not_eq_true', not_and, Bool.not_eq_false] at c1
+          simp only [Bool.not_eq_true] at c3
+          exact c1 c3
+        exact List.contains_iff_mem.mp this
+    cases hf : ini.find sname with
+    | none => rw [hf] at h; cases h
+    | some sec =>
+      rw [hf] at h; dsimp only at h
+      cases hp : processesFromSection cx .process sec p g with
+      | error e => rw [hp] at h; cases h
+      | ok ps =>
+        rw [hp] at h; dsimp only at h
+        cases hr : heteroPrograms cx ini g rest with
+        | error e => rw [hr] at h; cases h
+        | ok r =>
+          obtain ⟨more, taken'⟩ := r
+          rw [hr] at h; dsimp only at h
+          injection h with h; injection h with h1 h2; subst h1; subst h2
+          obtain ⟨pss, e1, e2, e3⟩ := ih more taken' hr
+          refine ⟨ps :: pss, by simp [e1], ?_, by simp [e3]⟩
+          simp only [List.zip_cons_cons]
+          exact Forall2.cons ⟨hsn.1, hsn.2, sec, hf, hp⟩ e2
+
+/-- a [program:x] section yields its own group exactly when no [group:g] section took it -/
+theorem own_groups_removed (cx : Ctx) (exclude : List String) (secs : List Section) (gs : List GConfig)
+    (h : homogGroups cx exclude secs = .ok gs) :
+    Forall2 (fun (sec : Section) (g : GConfig) =>
+        g.kind = .group ∧ processOrGroupName (afterPrefix "program:" sec.name) = .ok g.name ∧
+        processesFromSection cx .process sec (afterPrefix "program:" sec.name) g.name = .ok g.procs)
+      (secs.filter fun s => strStartsWith "program:" s.name && !exclude.contains s.name) gs := by
+  induction secs generalizing gs with
+  | nil => simp only [homogGroups] at h; injection h with h; subst h; exact Forall2.nil
+  | cons sec rest ih =>
+    unfold homogGroups at h
+    by_cases c : (!strStartsWith "program:" sec.name || exclude.contains sec.name) = true
+    · rw [if_pos c] at h
+      have : (strStartsWith "program:" sec.name && !exclude.contains sec.name) = false := by
+        revert c; cases strStartsWith "program:" sec.name <;> cases exclude.contains sec.name <;> simp
+      rw [List.filter_cons, this]
+      exact ih gs h
+    · rw [if_neg c] at h
+      have : (strStartsWith "program:" sec.name && !exclude.contains sec.name) = true := by
+        revert c; cases strStartsWith "program:" sec.name <;> cases exclude.contains sec.name <;> simp
+      rw [List.filter_cons, this]
+      simp only [bind, Except.bind, pure, Except.pure] at h
+      cases h1 : processOrGroupName (afterPrefix "program:" sec.name) with
+      | error e => rw [h1] at h; cases h
+      | ok name =>
+        rw [h1] at h; dsimp only at h
+        cases h2 : (getField cx.penv "homogeneous" sec "priority" [] (hereExps cx)) with
+        | error e => rw [h2] at h; cases h
+        | ok pv =>
+          rw [h2] at h; dsimp only at h
+          cases h3 : asInt pv with
+          | error e => rw [h3] at h; cases h
+          | ok prio =>
+            rw [h3] at h; dsimp only at h
+            cases h4 : processesFromSection cx .process sec (afterPrefix "program:" sec.name) name with
+            | error e => rw [h4] at h; cases h
+            | ok ps =>
+              rw [h4] at h; dsimp only at h
+              cases h5 : homogGroups cx exclude rest with
+              | error e => rw [h5] at h; cases h
+              | ok gs' =>
+                rw [h5] at h; dsimp only at h
+                injection h with h; subst h
+                exact Forall2.cons ⟨rfl, h1, h4⟩ (ih gs' h5)
+
+/-- **hetero_groups.**  The groups of a file are: one per [group:g] section (owning the processes of exactly
+    its listed programs, `heteroPrograms_spec`), one per [program:x] section *not* listed by any group
+    (`own_groups_removed` with `exclude` = the sections the groups took), the listener pools and the
+    FastCGI groups not taken. -/
+theorem hetero_groups (cx : Ctx) (ini : Ini) (gs : List GConfig) (h : groupsUnsorted cx ini = .ok gs) :
+    ∃ hg taken homog pools fcgi,
+      heteroGroups cx ini ini.sections = .ok (hg, taken) ∧
+      homogGroups cx taken ini.sections = .ok homog ∧
+      listenerGroups cx ini.sections = .ok pools ∧
+      fcgiGroups cx taken ini.sections = .ok fcgi ∧
+      gs = hg ++ homog ++ pools ++ fcgi := by
+  simp only [groupsUnsorted, bind, Except.bind, pure, Except.pure] at h
+  cases h1 : heteroGroups cx ini ini.sections with
+  | error e => rw [h1] at h; cases h
+  | ok r =>
+    obtain ⟨hg, taken⟩ := r
+    rw [h1] at h; dsimp only at h
+    cases h2 : homogGroups cx taken ini.sections with
+    | error e => rw [h2] at h; cases h
+    | ok homog =>
+      rw [h2] at h; dsimp only at h
+      cases h3 : listenerGroups cx ini.sections with
+      | error e => rw [h3] at h; cases h
+      | ok pools =>
+        rw [h3] at h; dsimp only at h
+        cases h4 : fcgiGroups cx taken ini.sections with
+        | error e => rw [h4] at h; cases h
+        | ok fcgi =>
+          rw [h4] at h; dsimp only at h
+          injection h with h
+          exact ⟨hg, taken, homog, pools, fcgi, rfl, h2, rfl, h4, h.symm⟩
+
+
+
+theorem Forall2.exists_of_mem {α β : Type} {R : α → β → Prop} {as : List α} {bs : List β} (h : Forall2 R as bs)
+    {a : α} (ha : a ∈ as) : ∃ b, b ∈ bs ∧ R a b := by
+  induction h with
+  | nil => cases ha
+  | cons hr _ ih =>
+    rcases List.mem_cons.mp ha with rfl | ha'
+    · exact ⟨_, List.mem_cons_self, hr⟩
+    · obtain ⟨b, hb, hrb⟩ := ih ha'
+      exact ⟨b, List.mem_cons_of_mem _ hb, hrb⟩
+
+/-- **constraint: missing command.**  Without a `command` the loop body fails for every process number, so a
+    section with numprocs ≥ 1 is rejected. -/
+theorem constraint_missing_command (cx : Ctx) (kind : PKind) (sec : Section) (pre : Pre) (E : Exps) (num : Int)
+    (hc : sec.opts.lookup "command" = none) : ∃ e, mkProc cx kind sec pre E num = .error e := by
+  apply isError_of_not_ok
+  rintro ⟨p, E'⟩ hok
+  obtain ⟨_, _, _, _, _, _, _, _, _, _, _, hcmd, _⟩ := mkProc_expands cx kind sec pre E E' num p hok
+  have hrow : findRow "program" "command" = some ⟨"program", "command", "", Dflt.none, true⟩ := by decide
+  simp [getField, hrow, saneget, hc, rawDefault, convert, asOptStr, bind, Except.bind] at hcmd
+
+theorem missing_command_rejects_section (cx : Ctx) (kind : PKind) (sec : Section) (suffix g : String)
+    (hc : sec.opts.lookup "command" = none)
+    (hn : ∀ pn pre, processOrGroupName suffix = .ok pn → parsePre cx sec (commonExps cx pn g) = .ok pre → 1 ≤ pre.numprocs) :
+    ∃ e, processesFromSection cx kind sec suffix g = .error e := by
+  apply isError_of_not_ok
+  intro ps hps
+  obtain ⟨us, hu, _, _⟩ := processesFromSection_perm cx kind sec suffix g ps hps
+  obtain ⟨pn, pre, h1, h2, hl, hall⟩ := numprocs_law cx kind sec suffix g us hu
+  have hpos := hn pn pre h1 h2
+  have : 0 < us.length := by omega
+  obtain ⟨Ei, Ei', hm⟩ := hall 0 this
+  obtain ⟨e, he⟩ := constraint_missing_command cx kind sec pre Ei (pre.numprocs_start + (0 : Nat)) hc
+  rw [he] at hm
+  cases hm
+
+/-- a failing [program:x] section makes the whole file fail.  PARTIAL: stated for sections that no [group:g]
+    section lists (hypothesis `hnot`); for a listed section the same holds through `heteroPrograms`, under the
+    additional assumption that section names are unique (true for every parsed file), not proved here. -/
+theorem section_error_rejects_file_partial (cx : Ctx) (ini : Ini) (sec : Section) (hmem : sec ∈ ini.sections)
+    (hp : strStartsWith "program:" sec.name = true)
+    (herr : ∀ g, ∃ e, processesFromSection cx .process sec (afterPrefix "program:" sec.name) g = .error e)
+    (hnot : ∀ hg taken, heteroGroups cx ini ini.sections = .ok (hg, taken) → sec.name ∉ taken) :
+    ∃ e, processGroupsFromParser cx ini = .error e := by
+  have : ∃ e, groupsUnsorted cx ini = .error e := by
+    apply isError_of_not_ok
+    intro gs hgs
+    obtain ⟨hg, taken, homog, _, _, h1, h2, _, _, _⟩ := hetero_groups cx ini gs hgs
+    have hf := own_groups_removed cx taken ini.sections homog h2
+    have hin : sec ∈ ini.sections.filter (fun s => strStartsWith "program:" s.name && !taken.contains s.name) := by
+      rw [List.mem_filter]
+      refine ⟨hmem, ?_⟩
+      have : taken.contains sec.name = false := by
+        have := hnot hg taken h1
+        simpa using this
+      simp only [hp, this, Bool.not_false, Bool.and_self]
+    obtain ⟨g, _, _, _, hok⟩ := hf.exists_of_mem hin
+    obtain ⟨e, he⟩ := herr g.name
+    rw [he] at hok
+    cases hok
+  obtain ⟨e, he⟩ := this
+  exact ⟨e, by simp [processGroupsFromParser, he, Except.map]⟩
+
+/-- … and a failing group stage makes `read_config` fail: the error reaches the caller as an error value -/
+theorem groups_error_rejects_config (ini : Ini) (r : Result) (h : readConfig ini = .ok r) :
+    ∃ cx gs, processGroupsFromParser cx ini = .ok gs ∧ r.groups = gs.map (mergeGroupEnv r.sup.environment) := by
+  simp only [readConfig, bind, Except.bind, pure, Except.pure] at h
+  repeat (split at h <;> try contradiction)
+  injection h with h
+  subst h
+  exact ⟨_, _, ‹_›, rfl⟩
+
+
+/-! ### non-vacuity: concrete files exercising the hypotheses above -/
+
+def exCx : Ctx := { penv := [("ENV_HOME", .s "/root")], here := "/etc", hostNode := "box", dirs := ["/tmp"],
+                    users := [("root", 0)], handlers := ["supervisor.dispatchers:default_handler"] }
+def exSec : Section := ⟨"program:web", [("command", "/bin/web --port=80%(process_num)02d"), ("numprocs", "3"),
+                                        ("numprocs_start", "5"), ("process_name", "%(program_name)s_%(process_num)02d"),
+                                        ("environment", "PORT=\"80%(process_num)02d\"")]⟩
+
+-- numprocs_law / ordering / per-process expansion hypotheses are satisfiable: three processes web_05 … web_07
+example : (processesFromSection exCx .process exSec "web" "web").map (fun ps => ps.map (fun p => (p.name, p.command, p.environment)))
+    = .ok [("web_05", "/bin/web --port=8005", [("PORT", "8005")]), ("web_06", "/bin/web --port=8006", [("PORT", "8006")]),
+           ("web_07", "/bin/web --port=8007", [("PORT", "8007")])] := by decide +kernel
+
+/-- the answer is an error message -/
+def rejected {α : Type} (x : Except String α) : Bool := match x with | .error _ => true | .ok _ => false
+
+-- each documented constraint is violated by a concrete section and rejected
+example : rejected (processesFromSection exCx .process ⟨"program:a", [("command", "x"), ("numprocs", "2")]⟩ "a" "a") = true := by decide +kernel
+example : rejected (processesFromSection exCx .process ⟨"program:a", [("command", "x"), ("stopasgroup", "true"), ("killasgroup", "false")]⟩ "a" "a") = true := by decide +kernel
+example : rejected (processesFromSection exCx .process ⟨"program:a", [("numprocs", "1")]⟩ "a" "a") = true := by decide +kernel
+example : rejected (processesFromSection exCx .process ⟨"program:a", [("command", "x"), ("process_name", "%(ENV_HOME)s")]⟩ "a" "a") = true := by decide +kernel
+example : rejected (processesFromSection exCx .process ⟨"program:a", [("command", "x"), ("startsecs", "1.5")]⟩ "a" "a") = true := by decide +kernel
+example : rejected (poolEvents ["tick_5", "NOPE"]) = true := by decide +kernel
+example : poolEvents ["tick_5", "PROCESS_STATE", "TICK_5"] = .ok ["Tick5Event", "ProcessStateEvent", "Tick5Event"] := by decide +kernel
+
+/-- group sections take their programs: a concrete file with [group:g] programs=b,a and a free program c -/
+def exIni : Ini := { sections := [⟨"supervisord", [("environment", "GLOBAL=\"sup\",A=\"s\"")]⟩,
+                                  ⟨"program:a", [("command", "a"), ("environment", "A=\"p\"")]⟩,
+                                  ⟨"program:b", [("command", "b"), ("priority", "1")]⟩,
+                                  ⟨"group:g", [("programs", "b, a"), ("priority", "5")]⟩,
+                                  ⟨"program:c", [("command", "c")]⟩],
+                     environ := [], here := "/etc", hostNode := "box", dirs := [], users := [], handlers := [] }
+
+example : (match readConfig exIni with
+           | .ok r => r.groups.map fun g => (g.name, g.procs.map fun p => p.name)
+           | .error _ => [])
+    = [("g", ["b", "a"]), ("c", ["c"])] := by decide +kernel
+
+example : (match readConfig exIni with
+           | .ok r => r.groups.flatMap fun g => g.procs.map fun p => p.environment
+           | .error _ => [])
+    = [[("GLOBAL", "sup"), ("A", "s")], [("GLOBAL", "sup"), ("A", "p")], [("GLOBAL", "sup"), ("A", "s")]] := by decide +kernel
+
 end Sv.Props.C14
